@@ -358,7 +358,9 @@ EXTRA_TEXT = {
     "C06": " Lists of proofs (Verify.selectProof / verifyList): list_accepted_one_proof_bound_and_valid - a credential with any list of proofs is accepted only if one and the same proof of the requested type "
            "is bound to it and verifies over the claim it carries; list_only_first_of_type. Tie: op verify.list - lists mixing a bound-but-unsigned proof, a genuine proof of another credential and a proof of "
            "another type, in several orders, against the real VerifyProof.",
-    "C07": " The same verification also runs through verifiable.HTTPDIDResolver against a scripted gateway (transient 5xx): same verdict, same questions asked. Known finding F8: status nonces are read back through float64 inside VerifyProof; the model receives the nonce as the verifier reads it (oracle column).",
+    "C08": " smt_resolver_failure_rejected: a resolver error (whatever document accompanies it) or an answer without state information is a rejection, also for the genesis state; the harness's resolver errors "
+           "come with an empty document, a 'published' one or one without the flag.",
+    "C07": " bjj_resolver_failure_rejected (as for C08), bjj_congr (no hidden input: the verdict is a function of the bundle's members). The same verification also runs through verifiable.HTTPDIDResolver against a scripted gateway (transient 5xx): same verdict, same questions asked. Known finding F8: status nonces are read back through float64 inside VerifyProof; the model receives the nonce as the verifier reads it (oracle column).",
 }
 _FACTS = (" Regenerated tie: on every run a small go/ast translator (harness `facts`) reads {what} off the source and bin/check generates a Lean file whose theorems "
           "(SourceFacts.{thms}) prove that the model's definitions are those very values; a change of the source breaks the obligation by name.")
